@@ -203,9 +203,10 @@ func (m *mangler) makeSignature(cert *certloader.Certificate, opts signers.SignO
 		ctype := m.ctypes.Find(name)
 		if ctype == "" {
 			ext := path.Ext(path.Base(name))
-			if ext[0] == '.' {
-				ctype = contentTypes[ext[1:]]
+			if ext == "" {
+				return nil, fmt.Errorf("part %s has neither a content type nor an extension", name)
 			}
+			ctype = contentTypes[ext[1:]]
 		}
 		if ctype == "" {
 			ctype = defaultContentType
